@@ -292,6 +292,31 @@ theorem classification_lowest_rank (rp : Option (Repair ℚ)) (g : Gather ν) (h
           · have : r1 = r := (Prod.mk.inj hin).1
             omega
 
+/-- **a second identical `build_summarized_result()` is idempotent** (any arithmetic): totals and result lists are
+rebuilt from the per-rank sums on every call, so building again on the same object — without `force_resummarize`, or
+with it — returns the same summarized ranks and the same result lists as the first build -/
+theorem rebuild_idempotent {α : Type} (A : Arith α) (rp : Option (Repair α)) (qbp nranks : Nat) (rows : List (RowV α ν))
+    (force : Bool) (l : List Nat) (ess : List (List (Entry α ν)))
+    (h : sessBuild A rp qbp nranks rows none false none = .ok (l, ess)) :
+    sessBuild A rp qbp nranks rows none force (some l) = .ok (l, ess) := by
+  unfold sessBuild sessRanks sessSummarize at h ⊢
+  simp only at h ⊢
+  cases hm : mapMRanks A rp qbp rows (summarizedRanks nranks rows) with
+  | error e => rw [hm] at h; cases h
+  | ok ess0 =>
+    rw [hm] at h
+    have h' : (summarizedRanks nranks rows, ess0) = (l, ess) := by
+      have : Except.map (fun ess => (summarizedRanks nranks rows, ess)) (Except.ok ess0 : Except Err _) =
+          Except.ok (summarizedRanks nranks rows, ess0) := rfl
+      simp only [decide_true, if_true] at h
+      rw [this] at h
+      exact Except.ok.inj h
+    obtain ⟨hl, he⟩ := Prod.mk.inj h'
+    subst hl he
+    by_cases hc : (force || (summarizedRanks nranks rows).isEmpty) = true
+    · simp only [hc, if_true, decide_true, hm]; rfl
+    · simp only [hc, Bool.false_eq_true, if_false, decide_true, if_true, hm]; rfl
+
 /-! ### reading the gather CSV(s): one result per query -/
 
 /-- **every query owns all its rows**: `load_gather_results` stores under each query name exactly that query's rows of the
